@@ -1,6 +1,7 @@
 import CM.Lib.Wire
 import CM.Model.Safe
 import CM.Model.Challenge
+import CM.Generated.Fn
 /-!
 Driver handler for C15. Every line carries the whole history (issuers, challenge table,
 present / clean-up events) followed by one request, hello or state query; the model runs
@@ -221,6 +222,10 @@ def handle (args impl : List String) : String :=
         let r : HttpReq := { method := m, path := path, host := host }
         let d := dis = "1"
         let ans := httpAnswer w.E S n ps d r
+        -- the TRANSLATED `LooksLikeHTTPChallenge` (CM/Generated/Fn) beside the model's two tests
+        if CM.Gen.Fn.translated.contains "LooksLikeHTTPChallenge" &&
+            CM.Gen.Fn.LooksLikeHTTPChallenge ⟨m, ⟨path⟩⟩ != (m == GET && basePath.isPrefixOf path) then
+          reply "translated-definition-differs-from-model" "-" "!" else
         let tag := if d then "dis" else if m != GET then "meth"
           else if !(basePath.isPrefixOf path) then "nopfx"
           else tagLookup w S n ps host ++ sufHttp ans
